@@ -125,3 +125,18 @@ Inductive loop_stmt :=
 | LSOnce                        (* let result = handle_http_conn_once(&mut http_conn, cache dir, small_body_len, handler.clone()).await; *)
 | LSMatchResult (err : list loop_err_act).
     (* match result { Ok(()) => {} Err(HttpError::Disconnected) => return, Err(e) => { err } } *)
+
+(* write_http_response (src/response.rs): the statements that build the head *)
+Inductive werr_name := WNUnwritable | WNDupContentType | WNDupContentLength | WNDupTransferEncoding | WNDisconnected | WNOther.
+Inductive head_stmt :=
+| HSRejectUnlessNormal (e : werr_name)        (* if !response.is_normal() { return Err(e); } *)
+| HSStatusLine (fmt : list fmt_seg)           (* let mut head_bytes = format!(fmt, code, reason_phrase(code)).into_bytes(); *)
+| HSContentType (name : list N) (e : werr_name) (fmt : list fmt_seg)
+    (* if response.content_type != ContentType::None {
+         if !response.headers.get_all(name).is_empty() { return Err(e); }  write!(head_bytes, fmt, content_type.as_str()) } *)
+| HSIfClose (fmt : list fmt_seg)              (* if close { write!(head_bytes, fmt) } *)
+| HSRejectIfPresent (name : list N) (e : werr_name)   (* if !response.headers.get_all(name).is_empty() { return Err(e); } *)
+| HSFraming (known unknown : list fmt_seg)    (* if let Some(body_len) = response.body.len() { write!(known) } else { write!(unknown) } *)
+| HSHeaders (fmt_name : list fmt_seg) (after : list N)
+    (* for header in &response.headers { write!(fmt_name, header.name); extend(value as bytes); extend(after) } *)
+| HSExtend (t : list N).                      (* head_bytes.extend(t) *)
